@@ -32,7 +32,7 @@ m = {
         "guard": "--cfg qbice_verif (and cfg(kani), set by cargo kani itself)",
         "enable": "checks set RUSTFLAGS='--cfg qbice_verif' and QBICE_VERIF_DIR=/verif when building /repo crates for Kani / replay drivers; Verus units need no hook (textual extraction)",
         "baseline_off_cmd": "cd /repo && cargo nextest run --workspace --no-fail-fast --offline || cargo test --workspace --no-fail-fast --offline",
-        "source_commits": [],
+        "source_commits": ["d4b0884 verif hooks: guarded include lines for the tiny_lfu lru/sketch harnesses; declare the cfgs", "9e48edb verif hook: guarded include line for the Policy::new capacity conformance test (cfg(kani) / cfg(qbice_verif))"],
         "add_only": True,
     },
     "engines": [{"name": "contracts", "path": "/verif/check", "serves_properties": sorted(PROPS),
